@@ -472,11 +472,13 @@ func (m *model) apply(s0 *mstate, ev *mev) []*mstate {
 
 	case evFail:
 		j := ev.tr.srv.idx
-		if s.gen[j] < 0 || s.active < 0 {
+		if s.active < 0 {
 			return []*mstate{s}
 		}
 		var out []*mstate
 		if ev.optional || !m.alive(s, ev.tr) {
+			// (a failure reported by a channel instance released since is
+			// attributed to the server, see evResp)
 			out = append(out, s0.clone())
 		}
 		must, may := false, false
